@@ -19,17 +19,23 @@ static bool must_reject_key(const std::string &k) {
 	else { for (char c : k) if (c == '=' || std::islower((unsigned char)c)) return true; }
 	return false;
 }
-static size_t max_value_len(const std::string &k) { return k.size() <= 8 ? 68 : 80 - (13 + k.size()); }
+static size_t max_value_len(const std::string &k) { return k.size() <= 8 ? 68 : k.size() >= 67 ? 0 : 67 - k.size(); } // (no value at all fits behind a key of 67 or more characters)
 
 static const char *KEYS[] = {"A", "KEY1", "ABCDEFGH", "X_Y", "A-B", "LONGERKEYNAME", "HIERARCH_STYLE_KEY_01", "A_VERY_VERY_LONG_KEY_NAME_FOR_HIERARCH_USE", "BITPIX", "NAXIS1", "ORDER0", "TYPE", "PERIOD2", "EXTEND", "COMMENT", "SIMPLE",
                              "lower", "Mixed", "SP ACE", "PUNCT.KEY", "K=V", "longerlowercasekey", "LONG=KEYWITHEQUALS", "", "END", "HISTORY", "CONTINUE", "BSCALE", "BZERO", "BLANK", "EXTNAME", "DATE", "CHECKSUM", "GEOM", "Z9",
                              // keys that interact with the HIERARCH convention, blanks and punctuation inside long keys, the 8/9 character boundary
                              "HIERARCH", "HIERARCH FOO", "HIERARCH LONGER KEY NAME", "HIERARCHX", " LEADING BLANK KEY", "TRAILING BLANK KEY ", "DOUBLE  BLANK KEY", "ICE MODEL VERSION", "DOTTED.LONG.KEY.NAME",
-                             "ABCDEFGHI", "A1234567", "LONG-KEY_WITH-PUNCT", "KEY WITH 'QUOTE'", "TAB\tIN LONG KEY", "LONGKEY/WITH/SLASH", "LONG KEY WITH & AMP", "NON-ASCII-\xc3\xa9-LONGKEY", "SHORT\xe9"};
+                             "ABCDEFGHI", "A1234567", "LONG-KEY_WITH-PUNCT", "KEY WITH 'QUOTE'", "TAB\tIN LONG KEY", "LONGKEY/WITH/SLASH", "LONG KEY WITH & AMP", "NON-ASCII-\xc3\xa9-LONGKEY", "SHORT\xe9",
+                             // keywords by which cfitsio identifies or checks an HDU, and keys so long that no value fits behind them
+                             "HDUNAME", "EXTVER", "HDUVER", "EXTLEVEL", "HDULEVEL", "INHERIT", "DATASUM", "ZIMAGE", "LONGSTRN", "TFIELDS",
+                             "A_KEY_OF_EXACTLY_SIXTY_FIVE_CHARACTERS_WHICH_LEAVES_TWO_FOR_VALUE", "A_KEY_OF_EXACTLY_SIXTY_SIX_CHARACTERS_WHICH_LEAVES_ONE_FOR_A_VALUE_",
+                             "A_KEY_OF_EXACTLY_SIXTY_SEVEN_CHARACTERS_WHICH_LEAVES_NONE_FOR_VALUE", "A_KEY_OF_SEVENTY_TWO_CHARACTERS_WHICH_IS_LONGER_THAN_ANY_VALUE_FIELD_CAN_BE", "A_KEY_WHICH_IS_VERY_MUCH_LONGER_THAN_A_WHOLE_EIGHTY_CHARACTER_HEADER_CARD_COULD_EVER_HOLD_IN_ITS_ENTIRETY"};
 static const int NKEYS = sizeof(KEYS) / sizeof(KEYS[0]);
 
 static std::string gen_strvalue(Rng &r, const std::string &key) {
 	size_t mx = max_value_len(key.size() ? key : "A");
+	if (mx < 3) return r.coin(0.5) ? std::string() : std::string(1 + r.below(3), 'x');
+	if (key == "HDUNAME" || key == "EXTVER" || key == "HDUVER") { static const char *nm[] = {"EXTENTS", "KNOTS0", "KNOTS1", "extents", "1", "2", "PRIMARY"}; return nm[r.below(7)]; }
 	switch (r.below(24)) {
 	case 14: { std::string v(mx, 'q'); v[r.below(mx)] = '\''; return v; }                                  // maximal length with one quote (doubles in the card)
 	case 15: { size_t q = 1 + r.below(4); if (mx < 2 * q + 1) return "'"; std::string v(mx - q, 'f'); for (size_t i = 0; i < q; i++) v[2 * i] = '\''; return v; } // fits exactly once its quotes are doubled
@@ -72,6 +78,7 @@ static void compare(Table &T, const Model &M, const std::string &hist, const cha
 static void run_C16(const Args &a, long cs) {
 	Rng r(a.seed, "C16", cs);
 	Spec s; s.order = {1, 0}; s.knots = {{0, 1, 2, 3, 4}, {0, 1, 2}}; s.coef = {1, 2, 3, 4, 5, 6}; if (r.coin(0.3)) s.aux.push_back({"PRESET", "41"});
+	s.extents = {1.25, 2.75, 0.5, 1.5}; // not the defaults derived from the knots: an aux key that makes the reader pick up the wrong extension shows here
 	Table *T = new Table(); if (!load(*T, s)) { viol("C16:load:well-formed-table-rejected", "{}"); delete T; return; }
 	Model M; M.kv = s.aux;
 	int nops = 5 + (int)r.below(a.tier == "thorough" ? 36 : 30);
@@ -134,6 +141,7 @@ static void run_C16(const Args &a, long cs) {
 			if (!ok) { viol("C16:roundtrip:accepted-store-cannot-be-serialised-or-read-back", "{\"what\":" + jstr(what) + ",\"history\":" + jstr(hist.substr(hist.size() > 900 ? hist.size() - 900 : 0)) + "}"); delete R; break; }
 			// every accepted entry must come back (as a set: same keys in the same order, values modulo trailing blanks)
 			compare(*R, M, hist, "after FITS round trip (every accepted entry must survive)");
+			for (unsigned d = 0; d < T->get_ndim() && d < R->get_ndim(); d++) if (!biteq(R->lower_extent(d), T->lower_extent(d)) || !biteq(R->upper_extent(d), T->upper_extent(d))) { viol("C16:roundtrip:extents-changed", "{\"dim\":" + std::to_string(d) + ",\"before\":[" + jnum(T->lower_extent(d)) + "," + jnum(T->upper_extent(d)) + "],\"after\":[" + jnum(R->lower_extent(d)) + "," + jnum(R->upper_extent(d)) + "],\"history\":" + jstr(hist.substr(hist.size() > 600 ? hist.size() - 600 : 0)) + "}"); break; }
 			if (!(*R == *T)) viol("C16:roundtrip:table-data-changed", "{\"history\":" + jstr(hist.substr(hist.size() > 600 ? hist.size() - 600 : 0)) + "}");
 			// the model continues with what the file holds (padding is allowed to appear)
 			if (R->get_naux_values() == M.kv.size()) for (size_t i = 0; i < M.kv.size(); i++) { const char *v = R->get_aux_value(M.kv[i].first.c_str()); if (v && rtrim(v) == rtrim(M.kv[i].second)) M.kv[i].second = v; }
